@@ -8,39 +8,49 @@
    rejects go statements unless allowed.  Run: executes the sites; the only host functions invoked
    are supplied ones. *)
 EXTENDS Integers, Sequences, FiniteSets, TLC
-CONSTANTS Pkgs,        \* universe of package paths that programs may name
+CONSTANTS MaxBuilds,   \* builds in a history
+          Pkgs,        \* universe of package paths that programs may name
           Fns,         \* universe of function names
           Decl         \* Decl[pkg] = functions the embedder's package pkg declares (when supplied)
 VARIABLES cfg,         \* [importer: SUBSET Pkgs, globals: SUBSET Fns, allowgo: BOOLEAN]
           prog,        \* sequence of [kind, pkg, fn]
           phase,       \* "build" | "run" | "builderror" | "done"
           i,           \* next site to resolve / execute
-          called       \* set of <<pkg, fn>> host functions invoked
-vars == <<cfg, prog, phase, i, called>>
+          called,      \* set of <<pkg, fn>> host functions invoked
+          nbuilds      \* builds made so far with (mutations of) the same embedder objects
+vars == <<cfg, prog, phase, i, called, nbuilds>>
 Kinds == {"direct", "value", "closure", "defer", "go"}
-Sites == [kind : Kinds, pkg : Pkgs \cup {""}, fn : Fns]
+\* pkg "" = a template global; pkg "#" = a builtin of the universe block (println, close ...): always resolvable,
+\* never a host function, cannot be used as a value - but `go println()` is still a go statement
+Sites == [kind : Kinds, pkg : Pkgs \cup {""}, fn : Fns] \cup [kind : Kinds \ {"value"}, pkg : {"#"}, fn : {"println"}]
 Supplied(c) == {x \in Pkgs \X Fns : x[1] \in c.importer /\ x[2] \in Decl[x[1]]}
                \cup {<<"", f>> : f \in c.globals}
-Resolves(c, s) == <<s.pkg, s.fn>> \in Supplied(c) /\ (s.kind = "go" => c.allowgo)
+Resolves(c, s) == (s.pkg = "#" \/ <<s.pkg, s.fn>> \in Supplied(c)) /\ (s.kind = "go" => c.allowgo)
 \* reference verdicts (what the property demands)
 BuildOk(c, pr) == \A k \in DOMAIN pr : Resolves(c, pr[k])
 MayCall(c) == Supplied(c)
 
 Init == /\ cfg \in [importer : SUBSET Pkgs, globals : SUBSET Fns, allowgo : BOOLEAN]
         /\ prog \in UNION {[1..n -> Sites] : n \in 1..2}
-        /\ phase = "build" /\ i = 1 /\ called = {}
+        /\ phase = "build" /\ i = 1 /\ called = {} /\ nbuilds = 1
 \* the checker meets site i: import through the importer, look the name up, go statement allowed?
 CheckSite == /\ phase = "build" /\ i <= Len(prog)
              /\ IF Resolves(cfg, prog[i]) THEN i' = i + 1 /\ UNCHANGED phase
                 ELSE phase' = "builderror" /\ UNCHANGED i
-             /\ UNCHANGED <<cfg, prog, called>>
-BuildDone == /\ phase = "build" /\ i > Len(prog) /\ phase' = "run" /\ i' = 1 /\ UNCHANGED <<cfg, prog, called>>
+             /\ UNCHANGED <<cfg, prog, called, nbuilds>>
+BuildDone == /\ phase = "build" /\ i > Len(prog) /\ phase' = "run" /\ i' = 1 /\ UNCHANGED <<cfg, prog, called, nbuilds>>
 \* callNative: the VM invokes the function value the importer / globals supplied for that name
 ExecSite == /\ phase = "run" /\ i <= Len(prog)
-            /\ called' = called \cup {<<prog[i].pkg, prog[i].fn>>} /\ i' = i + 1
-            /\ UNCHANGED <<cfg, prog, phase>>
-RunDone == /\ phase = "run" /\ i > Len(prog) /\ phase' = "done" /\ UNCHANGED <<cfg, prog, i, called>>
-Next == CheckSite \/ BuildDone \/ ExecSite \/ RunDone \/ (phase \in {"done", "builderror"} /\ UNCHANGED vars)
+            /\ called' = (IF prog[i].pkg = "#" THEN called ELSE called \cup {<<prog[i].pkg, prog[i].fn>>}) /\ i' = i + 1
+            /\ UNCHANGED <<cfg, prog, phase, nbuilds>>
+RunDone == /\ phase = "run" /\ i > Len(prog) /\ phase' = "done" /\ UNCHANGED <<cfg, prog, i, called, nbuilds>>
+\* the embedder changes what it supplies (possibly by mutating the same declaration maps in place) and builds again:
+\* every build is judged against what is supplied WHEN IT IS MADE
+Rebuild == /\ phase \in {"done", "builderror"} /\ nbuilds < MaxBuilds
+           /\ cfg' \in [importer : SUBSET Pkgs, globals : SUBSET Fns, allowgo : BOOLEAN]
+           /\ prog' \in UNION {[1..n -> Sites] : n \in 1..1}
+           /\ phase' = "build" /\ i' = 1 /\ called' = {} /\ nbuilds' = nbuilds + 1
+Next == CheckSite \/ BuildDone \/ ExecSite \/ RunDone \/ Rebuild \/ (phase \in {"done", "builderror"} /\ UNCHANGED vars)
 Spec == Init /\ [][Next]_vars
 
 OnlySupplied == called \subseteq MayCall(cfg)
